@@ -1370,6 +1370,21 @@ func c12ManifestBytes(store string) map[string]string {
 	return out
 }
 
+// c12BlobListing is the set of digest-named files in blobs/ (what the store HOLDS, referenced or not; temp files,
+// -partial files and part records are not blobs)
+func c12BlobListing(store string) []string {
+	var out []string
+	ents, _ := os.ReadDir(filepath.Join(store, "blobs"))
+	for _, e := range ents {
+		n := e.Name()
+		if len(n) == 7+64 && strings.HasPrefix(n, "sha256-") && strings.Trim(n[7:], "0123456789abcdef") == "" {
+			out = append(out, n[7:19])
+		}
+	}
+	sort.Strings(out)
+	return out
+}
+
 func c12ReadableListing(store string) string {
 	readable, _ := c12Walk(store)
 	var items []string
@@ -1781,6 +1796,7 @@ func TestVerifC12(t *testing.T) {
 			{Store: "S2", Label: "delete-torn", Op: &c12Op{Kind: "delete", Name: "z"}, Involved: inv("z"), ExpectFail: true},
 			{Store: "S1", Label: "upload-present", Op: &c12Op{Kind: "upload", Uploads: c12Blobs(g1), Chunk: chunk}, Involved: nil},
 			{Store: "S1", Label: "create-share", Op: &opCreateShare, Involved: inv("d")}, // every layer exists already ("using existing layer")
+			{Store: "S1", Label: "delete-unshared-noprune", Op: np(opDelUnshared), Involved: inv("c")},
 			// create FROM the model that is being replaced (`ollama create a` with FROM a): the repeated operation needs
 			// the replaced model to resolve at every crash point (L2 only: not in the Lean operation alphabet)
 			{Store: "S1", Label: "create-from-self", Op: &c12Op{Kind: "create", Name: "a", From: "a", System: "third system prompt of a", Chunk: chunk}, Involved: inv("a"), NoL1: true},
@@ -1911,6 +1927,7 @@ func TestVerifC12(t *testing.T) {
 			}
 			out.Count("op_" + sc.Op.Kind)
 			fullReadable := c12ReadableListing(full)
+			fullBlobs := c12BlobListing(full)
 			rerunOp := sc.Op
 			if sc.Op.Fault != "" {
 				out.Count("fault_" + sc.Op.Fault)
@@ -1929,6 +1946,7 @@ func TestVerifC12(t *testing.T) {
 				}
 				os.Unsetenv("OLLAMA_NOPRUNE")
 				fullReadable = c12ReadableListing(ref)
+				fullBlobs = c12BlobListing(ref)
 				os.RemoveAll(ref)
 			}
 			// contract behind the model's `put`: a manifest / part record is written by ONE write and every
@@ -2200,6 +2218,37 @@ func TestVerifC12(t *testing.T) {
 					}
 					if got := c12ReadableListing(dir); got != fullReadable {
 						out.L2("rerun-diverged", caseLine, fmt.Sprintf("window=%s readable manifests after rerun differ from the uninterrupted run: got [%s] want [%s]", window(n), got, fullReadable))
+					}
+					// round 7, clause 4 on blobs/: the repeated operation leaves the blobs an uninterrupted run leaves. Compared
+					// under OLLAMA_NOPRUNE only, where nothing ever collects an unreferenced blob (F28); in the default
+					// configuration unreferenced blobs are transient garbage on both sides (an uninterrupted `cp` onto an
+					// existing name leaves the replaced model's layers until the next start-up), what is referenced is
+					// compared by dangling-layer / rerun-diverged, and theorem rerun_converges_delete_blobs covers delete
+					if sc.Op.NoPrune {
+						got := c12BlobListing(dir)
+						var extra, missing []string
+						have := map[string]bool{}
+						for _, b := range got {
+							have[b] = true
+						}
+						want := map[string]bool{}
+						for _, b := range fullBlobs {
+							want[b] = true
+							if !have[b] {
+								missing = append(missing, b)
+							}
+						}
+						for _, b := range got {
+							if !want[b] {
+								extra = append(extra, b)
+							}
+						}
+						out.Count("blob_sets_compared")
+						if len(missing) > 0 {
+							out.L2("rerun-store-diverged", caseLine, fmt.Sprintf("missing blobs %v (extra %v) after rerun, compared with the uninterrupted run; window=%s pruned=%v", missing, extra, window(n), pruned))
+						} else if len(extra) > 0 {
+							out.L2("rerun-store-diverged", caseLine, fmt.Sprintf("extra blobs %v after rerun, compared with the uninterrupted run; window=%s pruned=%v", extra, window(n), pruned))
+						}
 					}
 				}
 				if !inRmRun && sc.Op.Fault == "" {
